@@ -1,22 +1,40 @@
 #!/usr/bin/env python3
-"""Writes harness/formats.txt: the FORMAT constants instantiated (const generics) in the harness.
-Each line: <I|F|B> <hex u128> <name>. Generators (gens.py / fmtlib.py) only use formats listed here.
-Per-property catalogues `fmtcat_*.py` (each with `extra_formats()`) are appended."""
-import glob, importlib, os, sys
+"""Writes harness/formats-<group>.txt: the FORMAT constants instantiated (const generics) in the harness,
+one file per *format group* so that each harness binary compiles a bounded number of monomorphisations.
+Each line: <I|F|B> <hex u128> <name>. (harness/formats.txt = group `base`, the default of build.rs.)
+Per-property catalogues `fmtcat_*.py` (each with `extra_formats()`) are assigned to groups below; a property
+module names its group with FORMAT_GROUP (default "base")."""
+import importlib, os, sys
 ROOT = os.path.dirname(os.path.dirname(os.path.abspath(__file__)))
 sys.path.insert(0, ROOT)
 import fmtlib
 
-formats = list(fmtlib.all_formats())
-for p in sorted(glob.glob(os.path.join(ROOT, "fmtcat_*.py"))):
-    formats += importlib.import_module(os.path.basename(p)[:-3]).extra_formats()
-lines = []
-seen = set()
-for kind, val, name in formats:
-    key = (kind, val)
-    if key in seen:
-        continue
-    seen.add(key)
-    lines.append("%s %x %s" % (kind, val, name))
-open(os.path.join(ROOT, "harness", "formats.txt"), "w").write("\n".join(lines) + "\n")
-print(len(lines), "formats")
+GROUPS = {
+    "base": ["fmtcat_main", "fmtcat_c18", "fmtcat_wfmt"],
+    "syntax": ["fmtcat_main", "fmtcat_pnum", "fmtcat_grammar"],
+    "total": ["fmtcat_pnum", "fmtcat_total", "fmtcat_dbg", "fmtcat_c18"],
+    "sep": ["fmtcat_sep"],
+}
+
+
+def write_group(group, cats):
+    formats = list(fmtlib.all_formats())
+    for c in cats:
+        try:
+            formats += importlib.import_module(c).extra_formats()
+        except ImportError:
+            pass
+    lines, seen = [], set()
+    for kind, val, name in formats:
+        key = (kind, val)
+        if key in seen:
+            continue
+        seen.add(key)
+        lines.append("%s %x %s" % (kind, val, name))
+    fn = "formats.txt" if group == "base" else "formats-%s.txt" % group
+    open(os.path.join(ROOT, "harness", fn), "w").write("\n".join(lines) + "\n")
+    print(group, len(lines), "formats")
+
+
+for g, cats in GROUPS.items():
+    write_group(g, cats)
